@@ -43,7 +43,7 @@ class Gen:
             return r.choice(['<script>var a = "<b>x</b>";</script>', '<style>p > a { color: red }</style>',
                              '<svg width="4"><circle r="2"></circle></svg>', '<select><option>one</option><option>two</option></select>',
                              '<input type="text" value="v">', '<textarea>t &lt; u</textarea>', '<button>go</button>', '<button type="submit" class="btn">send the form now</button>',
-                             '<iframe src="/frame"></iframe>', '<iframe></iframe>',
+                             '<iframe src="/frame"></iframe>', '<iframe></iframe>', '<iframe src="/f">Your browser does not support frames</iframe>',
                              '<video src="v.webm">plain fallback</video>', '<audio src="a.ogg"><b>no</b> audio</audio>',
                              '<object data="o.swf">fallback <i>words</i></object>'])
         return '<ins>%s</ins>' % self.words(1, 2) if r.random() < 0.5 else '<del>%s</del>' % self.words(1, 2)
